@@ -1,6 +1,7 @@
 package checks
 
 import (
+	mparsers "github.com/pip-services3-gox/pip-services3-expressions-gox/mustache/parsers"
 	"fmt"
 	"regexp"
 	"strconv"
@@ -151,6 +152,46 @@ func c12Run(c *fw.Ctx, kind, text string, optSets []int) {
 	}
 	c.Outcome(fmt.Sprintf("%s:lines=%d", kind, 1+strings.Count(text, "\n")))
 
+	// secondary (templates): a position quoted by the mustache parser is the position of a token, and where
+	// the message quotes the offending symbol or variable, of a token with exactly that value
+	// (like the expression parser, the mustache parser trims blanks around the text before tokenizing it,
+	// so quoted positions are relative to the trimmed text: only texts without surrounding blanks are checked)
+	if kind == "mustache" && text != "" && text == strings.Trim(text, " \t\r\n") {
+		p := mparsers.NewMustacheParser()
+		var err error
+		if pv := fw.Try(func() { err = p.ParseString(text) }); pv == nil && err != nil {
+			if ae, ok := err.(*cerr.ApplicationError); ok {
+				if m := c12PosRe.FindStringSubmatch(ae.Message); m != nil {
+					l, _ := strconv.Atoi(m[1])
+					col, _ := strconv.Atoi(m[2])
+					quoted := ""
+					for _, lead := range []string{"Unexpected symbol '", "section end for variable '", "section for variable '"} {
+						if i := strings.Index(ae.Message, lead); i >= 0 {
+							rest := ae.Message[i+len(lead):]
+							if j := strings.LastIndex(rest, "' at line"); j >= 0 {
+								quoted = rest[:j]
+							}
+						}
+					}
+					found, valueOK := false, false
+					for i := range base.toks {
+						if ref[i][0] == l && ref[i][1] == col {
+							found = true
+							if quoted == "" || base.toks[i].val == quoted || strings.EqualFold(strings.TrimSpace(base.toks[i].val), quoted) {
+								valueOK = true
+							}
+						}
+					}
+					c.Eval(1)
+					if !found {
+						c.Violation("error-position-not-at-a-token:mustache", "template %q: error %s %q quotes (%d,%d), which is not the position of any token %s", text, ae.Code, ae.Message, l, col, tokStr(base.toks))
+					} else if !valueOK {
+						c.Violation("error-position-at-another-token:mustache", "template %q: error %s %q quotes (%d,%d), but no token at that position has the quoted value %q; tokens %s", text, ae.Code, ae.Message, l, col, quoted, tokStr(base.toks))
+					}
+				}
+			}
+		}
+	}
 	// secondary: positions quoted in syntax errors point at a token
 	if kind == "expression" && text == strings.Trim(text, " \t\r\n") && text != "" {
 		p := parsers.NewExpressionParser()
@@ -274,7 +315,7 @@ func init() {
 		Level: "model_checking",
 		Rule: "(also: 121 boundary characters in every short context and every pattern of <=2 characters repeated up to 1000 times, three (thorough five) patterns repeated 65535..65537 times) 4 tokenizers x every string up to the length bound over an alphabet with LF, CR, a quote, a comment opener, a multi-character symbol and an unknown character x option sets (quick: none, each single option, the parser's set, two combinations, all on; thorough: all 128); " +
 			"oracle: token k of the option-free stream sits at the forward-scan coordinates (independent rule model, cross-checked with a fresh real scanner) of offset sum(len(values before)); tokens under options are aligned with their originals through the C15 transformer and must carry the same position; Eof one column past the last character; " +
-			"positions quoted in expression syntax errors (short strings, and every sequence of <=4 (thorough 5) grammar tokens written on one line and one token per line) must be the position of a token that does not lie inside the part of the input a reference recogniser consumes as a valid beginning of an expression, and for UNKNOWN_SYMBOL exactly the position of the first offending token; non-trivial = (multi-line input, option set) with >=3 tokens",
+			"positions quoted in expression syntax errors (short strings, and every sequence of <=4 (thorough 5) grammar tokens written on one line and one token per line) must be the position of a token that does not lie inside the part of the input a reference recogniser consumes as a valid beginning of an expression, and for UNKNOWN_SYMBOL exactly the position of the first offending token; positions quoted by the mustache parser must be the position of a token, with the quoted symbol or variable as its value; non-trivial = (multi-line input, option set) with >=3 tokens",
 		Assume: []string{"C04 and C15 hold for the (input, option set) (otherwise skipped and counted)", "coordinates as defined by C11's forward scan"},
 		Spaces: func(tier string) []fw.Space {
 			lens := map[string]int{"generic": 4, "expression": 4, "csv": 5, "mustache": 4, "csv+latin1": 4, "csv+wide": 4}
